@@ -59,6 +59,21 @@ impl Model {
         Model { _child: child, stdin, stdout }
     }
 
+    /// the model's order key (timer_seq) of a timer
+    pub fn timer_seq(&mut self, t: &crate::state::MTimer) -> Result<u128, String> {
+        let mut req = vec![];
+        t.nums(&mut req);
+        self.stdin.write_all(join("T", &req).as_bytes()).map_err(|e| e.to_string())?;
+        self.stdin.flush().map_err(|e| e.to_string())?;
+        let mut line = String::new();
+        self.stdout.read_line(&mut line).map_err(|e| e.to_string())?;
+        let mut it = line.split_whitespace();
+        match (it.next(), it.next()) {
+            (Some("R"), Some(x)) => x.parse::<u128>().map_err(|e| e.to_string()),
+            _ => Err(format!("unexpected driver line: {}", line.trim())),
+        }
+    }
+
     /// returns (output numbers, oracle answers given)
     pub fn step(
         &mut self,
